@@ -21,7 +21,9 @@ from ufl.corealg.multifunction import MultiFunction
 from ufl.domain import extract_domains, extract_unique_domain
 from ufl.form import Form
 from ufl.integral import Integral
+from ufl.pullback import SymmetricPullback
 from ufl.utils.indexflattening import flatten_multiindex, shape_to_strides
+from ufl.utils.sequences import product
 
 
 class SumDegreeEstimator(MultiFunction):
@@ -188,14 +190,26 @@ class SumDegreeEstimator(MultiFunction):
                 element = self.element_replace_map.get(element, element)
             sub_elements = element.sub_elements
             if sub_elements and len(multiindex) == len(op.ufl_shape):
-                component = flatten_multiindex(
-                    [int(idx) for idx in multiindex], shape_to_strides(op.ufl_shape)
-                )
+                indices = [int(idx) for idx in multiindex]
+                pullback = element.pullback
+                if isinstance(pullback, SymmetricPullback):
+                    # The symmetry maps the (block) component of the
+                    # physical value to the sub-element providing it.
+                    num_block_indices = len(next(iter(pullback._symmetry)))
+                    key = tuple(indices[:num_block_indices])
+                    d = sub_elements[pullback._symmetry[key]].embedded_superdegree
+                    return self.default_degree if d is None else d
+                component = flatten_multiindex(indices, shape_to_strides(op.ufl_shape))
+                domain = extract_unique_domain(op, expand_mesh_sequence=False)
                 # Walk the sub-elements in order to find which one covers
-                # this flattened component.
+                # this flattened component of the physical value (the
+                # physical and reference value sizes of a sub-element
+                # differ e.g. for Piola-mapped elements on manifolds).
                 offset = 0
-                for sub_element in sub_elements:
-                    sub_size = sub_element.reference_value_size
+                for sub_domain, sub_element in zip(domain.iterable_like(element), sub_elements):
+                    sub_size = product(
+                        sub_element.pullback.physical_value_shape(sub_element, sub_domain)
+                    )
                     if component < offset + sub_size:
                         d = sub_element.embedded_superdegree
                         return self.default_degree if d is None else d
